@@ -9,6 +9,7 @@ use tokio::sync::{
 };
 
 use super::{ChMuxError, SendError, mux::PortEvt};
+use crate::exec;
 
 // ===========================================================================
 // Credit accounting for sending data
@@ -262,10 +263,16 @@ impl ChannelCreditReturner {
                 self.to_return = 0;
 
                 if let Err(TrySendError::Full(msg)) = tx.try_send(msg) {
+                    // The send is performed by its own task, so that it makes progress even if the
+                    // receiver is not polled anymore: queued for a slot but not polled, it would
+                    // otherwise hold the slot it is given and block all other users of the queue.
                     let tx = tx.clone();
+                    let task = exec::spawn(async move {
+                        let _ = tx.send(msg).await;
+                    });
                     self.return_fut = Some(
                         async move {
-                            let _ = tx.send(msg).await;
+                            let _ = task.await;
                         }
                         .boxed(),
                     );
